@@ -7,6 +7,9 @@ import Proofs.C01.CapstoneLadders
 import Proofs.C01.CapstoneCofactor
 import Proofs.C01.CapstoneToy
 import Proofs.C01.CapstoneLadders2
+import Proofs.C01.GlvGen
+import Proofs.C01.NumberTheory
+import Proofs.C01.Sqrt
 /-!
 # C01 — curve and field arithmetic compute exactly the group law (DESIGN.md §3 C01)
 
@@ -458,5 +461,46 @@ theorem bos_coster_terminates {α β : Type} {o : JacOps α β} (sel : Select α
 theorem mult_regular_window_answers {α β : Type} {o : JacOps α β} (scalarLen m w : ℕ) (hw : 1 ≤ w)
     (hs : 1 ≤ scalarLen ∨ 1 ≤ m) (Q : α) : ∃ r, multRegularWindow o scalarLen m Q w = some r :=
   multRegularWindow_answers scalarLen m w hw hs Q
+
+/-- T7 on the function TRANSLATED from the source each run (`Generated/C01Glv.lean`): it is the model the GLV
+ladders use … -/
+theorem glv_decomposer_is_generated (m : ℤ) :
+    Gen.C01Glv.multiplier_decomposer m = multiplierDecomposer m := multiplierDecomposer_eq_generated m
+
+/-- … and `m₁ + m₂·λ ≡ m (mod N)` for every integer `m` -/
+theorem glv_generated_decomposition (m : ℤ) :
+    ((Gen.C01Glv.multiplier_decomposer m).1 + (Gen.C01Glv.multiplier_decomposer m).2 * Gen.Curves.glv_LAM - m)
+      % Gen.Curves.glv_N = 0 := generated_decomposer_congr m
+
+/-! ## wave 3 — T9 number theory -/
+
+/-- `mod_inv_var(a, m) = x` iff `x` is the reduced inverse of `a`: every integer `a`, every `m ≥ 1` -/
+theorem mod_inv_iff {m : ℤ} (hm : 1 ≤ m) (a x : ℤ) :
+    modInv a m = some x ↔ (0 ≤ x ∧ x < m ∧ a * x % m = 1 % m) := NT.modInv_eq_some_iff hm a x
+
+/-- … and it refuses exactly the operands with no inverse -/
+theorem mod_inv_refuses_iff {m : ℤ} (hm : 1 ≤ m) (a : ℤ) : modInv a m = none ↔ Int.gcd a m ≠ 1 :=
+  NT.modInv_eq_none_iff hm a
+
+/-- `mod_inv` (blinded) equals `mod_inv_var` for EVERY blind, composite moduli included (the fallback branch) -/
+theorem mod_inv_blind {m : ℤ} (hm : 1 ≤ m) (a b : ℤ) : NT.modInvBlind a m b = modInv a m := NT.modInvBlind_eq hm a b
+
+/-- `mod_inv_batch_var` (Montgomery's trick) is pointwise `mod_inv_var`; refused iff some element is not invertible -/
+theorem mod_inv_batch {m : ℤ} (hm : 1 ≤ m) (as : List ℤ) : NT.modInvBatchVar as m = as.mapM (modInv · m) :=
+  NT.modInvBatchVar_eq hm as
+
+example : NT.modInvBatchVar [2, 3, 5] 7 = some [4, 5, 3] := by decide
+
+/-- `mod_sqrt_var` on the closed-form branches: an answer is a reduced square root (ANY modulus) -/
+theorem mod_sqrt_sound (a p r : ℤ) (hbr : p % 4 = 3 ∨ p % 8 = 5) (h : NT.modSqrtVar a p = some r) :
+    0 ≤ r ∧ r < p ∧ r * r % p = a % p := NT.modSqrtVar_sound a p r hbr h
+
+/-- … and for a PRIME modulus a refusal means the operand is not a square, `p ≡ 3 (mod 4)` … -/
+theorem mod_sqrt_refuses_3mod4 {p : ℕ} [Fact p.Prime] (h34 : p % 4 = 3) (a : ℤ)
+    (h : NT.modSqrtVar a (p : ℤ) = none) (y : ZMod p) : y ^ 2 ≠ (a : ZMod p) := NT.modSqrtVar_none_3mod4 h34 a h y
+
+/-- … and `p ≡ 5 (mod 8)` (Euler's criterion; `2` is a non-residue there) -/
+theorem mod_sqrt_refuses_5mod8 {p : ℕ} [Fact p.Prime] (h58 : p % 8 = 5) (a : ℤ)
+    (h : NT.modSqrtVar a (p : ℤ) = none) (y : ZMod p) : y ^ 2 ≠ (a : ZMod p) := NT.modSqrtVar_none_5mod8 h58 a h y
 
 end Props.C01
